@@ -321,6 +321,7 @@ func isEOFClass(err error) bool {
 }
 
 func runC08(r *core.Run) {
+	resetLibrary()
 	t := r.T
 	if r.Scenario != nil {
 		c08RunScenario(r)
